@@ -577,7 +577,7 @@ def fileproc_cases():
 
 
 DECL = {
-    "A": "const CA = 3;\nenum EA { EA_x = 1, EA_y = 5 };\nstruct SA { u8 x[CA]; EA e; };\n",
+    "A": "const CA = 3;\nenum EA { EA_x = 1, EA_y = 5 };\ntypedef u8 TA;\nstruct SA { u8 x[CA]; EA e; };\n",
 }
 
 
@@ -593,10 +593,12 @@ def file_texts(cfg, with_includes=True):
     def inc_lines(f):
         return "".join('#include "%s.prophy"\n' % leaf for leaf in incs[f]) if with_includes else ""
     a = inc_lines("A") + DECL["A"]
-    a2 = "const CA = 5;\nenum EA { EA_x = 1, EA_y = 5 };\nstruct SA { u8 x[CA]; EA e; u16 extra; };\n"
-    b = inc_lines("B") + "struct SB { %su16 y; u64 z; };\n" % ("SA a; " if "A" in incs["B"] else "")
-    m = inc_lines("M") + "struct SM { %s%su8 t; i16 w<>; };\n" % ("SA a; " if "A" in incs["M"] else "",
-                                                                   "SB b; " if "B" in incs["M"] else "")
+    a2 = "const CA = 5;\nenum EA { EA_x = 1, EA_y = 5 };\ntypedef u16 TA;\nstruct SA { u8 x[CA]; EA e; u16 extra; };\n"
+    # B's typedef goes on to A's when B includes A: a chain that crosses a nested include when M uses it as a sizer
+    b = inc_lines("B") + "typedef %s TB;\nstruct SB { %su16 y; u64 z; };\n" % (
+        "TA" if "A" in incs["B"] else "u32", "SA a; " if "A" in incs["B"] else "")
+    m = inc_lines("M") + "struct SM { %s%su8 t; i16 w<>; };\n" % (
+        "SA a; " if "A" in incs["M"] else "", "SB b; TB n; u16 ext<@n>; " if "B" in incs["M"] else "")
     return {"A": a, "A2": a2, "B": b, "M": m}
 
 
@@ -794,6 +796,7 @@ def include_worker(cases, wid, extra):
                     if "B" in cfg["incs"]["M"]:
                         msg.b.y = 513
                         msg.b.z = 2 ** 40
+                        msg.ext[:] = [5, 600]
                 if x.encode("<") != y.encode("<") or x.encode(">") != y.encode(">"):
                     res["fails"].append(dict(basef, what="encodings differ: multi-file %s, single file %s"
                                              % (x.encode("<").hex(), y.encode("<").hex())))
